@@ -70,8 +70,11 @@ def workloads(draw):
                 s["host"] = host if host in exec_hosts and draw(st.integers(0, 3)) else draw(st.sampled_from(exec_hosts))
                 sp = p.speed(s["host"])
                 s["flops"] = d * sp
-                o = draw(st.integers(0, 5))
-                if o == 0:
+                o = draw(st.integers(0, 6))
+                if o == 6 or (o == 5 and p.cores(s["host"]) > 1):
+                    # a bound ABOVE the speed of one core: it must change nothing for a single-core execution (the core is the limit)
+                    s["bound"] = sp * draw(st.sampled_from([1.25, 1.5, 2.5, 2.0, 4.0]))
+                elif o == 0:
                     s["bound"] = sp * draw(st.sampled_from([0.125, 0.25, 0.5, 0.75, 1.0, 2.0]))
                 elif o == 1:
                     s["prio"] = draw(st.sampled_from([0.5, 2.0, 4.0, 3.0]))
@@ -98,6 +101,9 @@ def workloads(draw):
         k = draw(st.integers(1, 9))
         d = draw(secs())
         g = {"op": "group", "pause": draw(pauses()), "k": k, "flops": d * p.speed(group_host), "hs": [handle() for _ in range(k)]}
+        if draw(st.booleans()):
+            # the k executions all carry the same bound above the speed of one core: still S x min(1, n/k) each
+            g["bound"] = p.speed(group_host) * draw(st.sampled_from([1.25, 1.5, 2.5]))
         pos = draw(st.integers(0, nact - 1))
         # the group's actor lives on the group's host; it only runs the group (plus sleeps), so the k executions are alone on that host
         actors.insert(pos, {"host": group_host, "steps": [g]})
@@ -122,7 +128,8 @@ class C21(core.Prop):
             "Activity::get_remaining and the granted rate of every running activity, Host::get_load, Link::get_load, the three constraints of every disk. "
             "Oracle: remaining = requested amount at start, never increases, > 0 before the completion date and 0 at it; sum of granted rate x step "
             "= amount; per step, decrease of remaining = granted rate x step; sampled load <= capacity for hosts (cores x speed), links, disks; load "
-            "recomputed from the observed progress <= capacity; each of k equal executions progresses at S x min(1, n/k) in every step. "
+            "recomputed from the observed progress <= capacity; each of k equal executions (unbounded, or all with the same bound above S) progresses at S x min(1, n/k) in every step; a single-core "
+            "execution is never granted more than min(bound, S) (bounds 1.25-4 x S are generated on multi-core hosts). "
             "Non-trivial: >= 2 activities share a resource (host, link or disk) over a step of positive length.")
     assumptions = ["tolerances: 1e-9 relative + precision/work-amount (1e-5 flop|byte) + 8 ulp of the amounts; disks: + 0.5 byte per activity and step "
                    "(DiskS19Model moves rint(rate x step) bytes per step: remaining stays a whole number of bytes, never negative, the total is exact)",
@@ -157,8 +164,9 @@ class C21(core.Prop):
                     continue
                 if s["op"] == "group":
                     for h in s["hs"]:
-                        meta[h] = {"kind": "exec", "amount": s["flops"], "host": a["host"], "group": True, "actor": name, "start_op": len(ops)}
-                        ops.append(["exec_async", s["flops"], {}, h])
+                        meta[h] = {"kind": "exec", "amount": s["flops"], "host": a["host"], "group": True, "actor": name, "start_op": len(ops),
+                                   "bound": s.get("bound")}
+                        ops.append(["exec_async", s["flops"], {"bound": s["bound"]} if "bound" in s else {}, h])
                     for h in s["hs"]:
                         meta[h]["info0"] = len(ops)
                         ops.append(["act_info", h])
@@ -288,12 +296,22 @@ class C21(core.Prop):
                 break
             granted = 0.0
             nsteps = 0
+            core_cap = None
+            if a["kind"] == "exec" and a.get("threads", 1) == 1:
+                core_cap = min(p.speed(a["host"]), a["bound"]) if a.get("bound") else p.speed(a["host"])
             io_slack = 0.5 if a["kind"] == "io" else 0.0
             dur = a["finish"] - a["start"]
             for (t0, r0, _), (t1, r1, rate) in zip(pts, pts[1:]):
                 dt = t1 - t0
                 nsteps += 1
                 granted += rate * dt
+                if core_cap is not None:
+                    # a single-core execution never runs faster than one core, nor than its bound
+                    if rate > core_cap * (1 + 1e-9) or (use_rem and (r0 - r1) > core_cap * dt * (1 + 1e-9) + tolw(a)):
+                        oc.bad("single-core-exec-exceeds-core-speed", "%s: between %r and %r it is granted %r flop/s and progresses by %r flops, but "
+                               "one core of %s delivers %r flop/s%s" % (who, t0, t1, rate, (r0 - r1) if use_rem else rate * dt, a["host"],
+                                                                       p.speed(a["host"]), "" if not a.get("bound") else " and its bound is %r" % a["bound"]))
+                        break
                 if not use_rem:
                     continue
                 if r1 > r0 + 8 * math.ulp(a["amount0"]):
@@ -445,6 +463,17 @@ class C21(core.Prop):
                 labels.add("threads")
             if a.get("bound") is not None:
                 labels.add("bound")
+                if a["kind"] == "exec" and a.get("threads", 1) == 1 and a["bound"] > p.speed(a["host"]):
+                    labels.add("bound>S")
+                    n = p.cores(a["host"])
+                    if n > 1:
+                        labels.add("bound>S:multicore")
+                        # is there a step of its life with fewer running executions than cores on that host?
+                        for (t0, _, _), (t1, _, _) in zip(a["pts"], a["pts"][1:]):
+                            if t1 > t0 and sum(1 for b in acts.values() if b["kind"] == "exec" and b["host"] == a["host"]
+                                               and b["start"] <= t0 and b["finish"] >= t1) < n:
+                                labels.add("bound>S:idle-cores")
+                                break
             if a.get("prio") is not None:
                 labels.add("prio")
         labels.add("steps-%s" % ("<5" if len(samples) < 5 else "5-15" if len(samples) <= 15 else ">15"))
